@@ -1,6 +1,970 @@
-//! C27 — not built yet.
-use vcommon::Args;
+//! C27 — introspection data is well-formed and matches wire behaviour.
+//!
+//! Space (programs): registration sets of the generated interface bank — the standard layout,
+//! every interface alone on three tree shapes, every ordered pair (parent, child) and every
+//! unordered pair on one node (quick); plus triples on one node and three-level chains
+//! (thorough) — and for each set every node of the resulting tree is introspected.
+//!
+//! Oracle per introspected node:
+//!  * well-formed: judged by Python's expat (child process, one batch), not by quick-xml;
+//!  * read back by `zbus_xml::Node::from_reader`, and both parsers see the same structure;
+//!  * the top-level `<node>` lists exactly the registered + standard interfaces and exactly the
+//!    immediate child nodes;
+//!  * declared members and types == the bank's definitions, and (standard layout) == what the
+//!    server accepts and sends on the wire when driven *from the XML*: every declared method is
+//!    called with values of the declared `in` types (handler must run) and the reply signature
+//!    must be the declared `out` types — skipped for methods returning one struct, as the property
+//!    says; every signal is emitted and its wire signature compared; every property is read
+//!    (variant content type) and, if writable, written with the declared type.
+//!
+//! When a document is ill-formed the cause is isolated by re-parsing it with the bank's doc texts
+//! containing `--` neutralised; the remaining clauses are then evaluated on that variant so that a
+//! doc-comment problem does not hide a type problem.
 
-pub fn main(_args: &Args) -> i32 {
-    vcommon::machinery_failure("C27: check not built yet")
+use std::collections::{BTreeMap, BTreeSet};
+
+use serde_json::{json, Value as J};
+use vcommon::{catch, hash64, par_for, Args, Report, Tier, Violation};
+
+use crate::{
+    bank::*,
+    c26::{run_call, tree_paths, BankWorld, STANDARD_IFACES},
+};
+
+type Config = Vec<(String, usize)>;
+
+fn cfg_name(c: &Config) -> String {
+    c.iter().map(|(p, i)| format!("I{i}@{p}")).collect::<Vec<_>>().join(" ")
+}
+
+fn layout_config() -> Config {
+    let mut c = vec![];
+    for d in IFACES {
+        for p in d.paths {
+            c.push((p.to_string(), d.idx));
+        }
+    }
+    c
+}
+
+fn configs(tier: Tier) -> Vec<(String, Config)> {
+    let n = IFACES.len();
+    let mut out = vec![("layout".to_string(), layout_config())];
+    for j in 0..n {
+        for p in ["/", "/a", "/a/b/c"] {
+            out.push(("single".into(), vec![(p.to_string(), j)]));
+        }
+    }
+    for a in 0..n {
+        for b in 0..n {
+            out.push(("parent-child".into(), vec![("/p".to_string(), a), ("/p/q".to_string(), b)]));
+            if a < b {
+                out.push(("same-node".into(), vec![("/p".to_string(), a), ("/p".to_string(), b)]));
+            }
+        }
+    }
+    if tier == Tier::Thorough {
+        for a in 0..n {
+            for b in a + 1..n {
+                for c in b + 1..n {
+                    out.push((
+                        "same-node-3".into(),
+                        vec![("/p".to_string(), a), ("/p".to_string(), b), ("/p".to_string(), c)],
+                    ));
+                }
+            }
+        }
+        for a in 0..n {
+            for b in 0..n {
+                for c in 0..n {
+                    out.push((
+                        "chain-3".into(),
+                        vec![("/p".to_string(), a), ("/p/q".to_string(), b), ("/p/q/r/s".to_string(), c)],
+                    ));
+                }
+            }
+        }
+        for a in 0..n {
+            for b in 0..n {
+                out.push(("siblings".into(), vec![("/p/l".to_string(), a), ("/p/r".to_string(), b)]));
+            }
+        }
+    }
+    out
+}
+
+fn build_world(cfg: &Config) -> BankWorld {
+    let mut b = BankWorld::new_empty();
+    for (p, i) in cfg {
+        b.register(*i, p);
+    }
+    b
+}
+
+/// Introspect `path` with a raw call; Ok(xml) or a description of what came back instead.
+fn introspect(b: &mut BankWorld, path: &str) -> Result<String, String> {
+    let serial = b.serial();
+    let c = CallSpec::new(serial, path, "org.freedesktop.DBus.Introspectable", "Introspect", vec![]);
+    let o = run_call(b, &c);
+    if let Some(p) = o.panic {
+        return Err(format!("panic: {p}"));
+    }
+    match o.replies.as_slice() {
+        [m] if m.mtype == T_RETURN => match dec_body(&m.sig, &m.body) {
+            Ok(v) => match v.as_slice() {
+                [Val::S(s)] => Ok(s.clone()),
+                o => Err(format!("Introspect returned {o:?}")),
+            },
+            Err(e) => Err(format!("Introspect reply does not decode: {e}")),
+        },
+        [m] => Err(format!("Introspect answered with error {:?}", m.error_name)),
+        o => Err(format!("{} replies to Introspect", o.len())),
+    }
+}
+
+// ---------------------------------------------------------------------------------------------
+// Independent XML parser (python3 / expat), batched
+// ---------------------------------------------------------------------------------------------
+
+const PY: &str = r#"
+import sys, json, xml.parsers.expat
+def parse(text):
+    stack = []; roots = []; stray = []; ncomments = [0]
+    p = xml.parsers.expat.ParserCreate()
+    def start(name, attrs):
+        el = {"tag": name, "attrs": attrs, "children": []}
+        (stack[-1]["children"] if stack else roots).append(el)
+        stack.append(el)
+    def end(name):
+        stack.pop()
+    def chars(data):
+        if data.strip():
+            stray.append(data.strip()[:60])
+    def comment(data):
+        ncomments[0] += 1
+    p.StartElementHandler = start
+    p.EndElementHandler = end
+    p.CharacterDataHandler = chars
+    p.CommentHandler = comment
+    try:
+        p.Parse(text.encode("utf-8"), True)
+    except xml.parsers.expat.ExpatError as e:
+        return {"ok": False, "err": str(e)}
+    return {"ok": True, "root": roots[0] if roots else None, "stray": stray, "comments": ncomments[0]}
+docs = json.load(open(sys.argv[1], encoding="utf-8"))
+json.dump([parse(d) for d in docs], sys.stdout)
+"#;
+
+fn python_parse(docs: &[String]) -> Vec<J> {
+    if docs.is_empty() {
+        return vec![];
+    }
+    let dir = vcommon::verif_root().join(".run");
+    let _ = std::fs::create_dir_all(&dir);
+    let path = dir.join(format!("c27-xml-{}.json", std::process::id()));
+    if std::fs::write(&path, serde_json::to_string(docs).unwrap()).is_err() {
+        vcommon::machinery_failure("C27: cannot write the XML batch file");
+    }
+    let out = std::process::Command::new("python3")
+        .arg("-c")
+        .arg(PY)
+        .arg(&path)
+        .output()
+        .unwrap_or_else(|e| vcommon::machinery_failure(&format!("C27: cannot run python3: {e}")));
+    let _ = std::fs::remove_file(&path);
+    if !out.status.success() {
+        vcommon::machinery_failure(&format!(
+            "C27: python3 XML batch failed: {}",
+            String::from_utf8_lossy(&out.stderr)
+        ));
+    }
+    let v: J = serde_json::from_slice(&out.stdout)
+        .unwrap_or_else(|e| vcommon::machinery_failure(&format!("C27: bad python output: {e}")));
+    let v = v.as_array().cloned().unwrap_or_default();
+    if v.len() != docs.len() {
+        vcommon::machinery_failure("C27: python batch returned a different number of results");
+    }
+    v
+}
+
+// ---------------------------------------------------------------------------------------------
+// Structure of an introspection document (from either parser)
+// ---------------------------------------------------------------------------------------------
+
+#[derive(Clone, Debug, PartialEq, Eq, PartialOrd, Ord)]
+struct XArg {
+    ty: String,
+    dir: Option<String>,
+}
+#[derive(Clone, Debug, PartialEq, Eq, PartialOrd, Ord, Default)]
+struct XIface {
+    name: String,
+    methods: BTreeMap<String, Vec<XArg>>,
+    signals: BTreeMap<String, Vec<XArg>>,
+    /// name -> (type, access)
+    props: BTreeMap<String, (String, String)>,
+    duplicates: Vec<String>,
+}
+#[derive(Clone, Debug, PartialEq, Eq, Default)]
+struct XNode {
+    name: Option<String>,
+    ifaces: BTreeMap<String, XIface>,
+    children: Vec<XNode>,
+    duplicates: Vec<String>,
+}
+
+fn attr(el: &J, k: &str) -> Option<String> {
+    el["attrs"][k].as_str().map(|s| s.to_string())
+}
+
+fn xnode_from_py(el: &J) -> Result<XNode, String> {
+    if el["tag"] != "node" {
+        return Err(format!("root element is {:?}, not node", el["tag"]));
+    }
+    let mut n = XNode {
+        name: attr(el, "name"),
+        ..Default::default()
+    };
+    for ch in el["children"].as_array().cloned().unwrap_or_default() {
+        match ch["tag"].as_str().unwrap_or("") {
+            "node" => n.children.push(xnode_from_py(&ch)?),
+            "interface" => {
+                let mut xi = XIface {
+                    name: attr(&ch, "name").ok_or("interface without name")?,
+                    ..Default::default()
+                };
+                for m in ch["children"].as_array().cloned().unwrap_or_default() {
+                    let tag = m["tag"].as_str().unwrap_or("").to_string();
+                    let name = attr(&m, "name").ok_or(format!("{tag} without name"))?;
+                    let args = || -> Result<Vec<XArg>, String> {
+                        let mut v = vec![];
+                        for a in m["children"].as_array().cloned().unwrap_or_default() {
+                            if a["tag"] == "arg" {
+                                v.push(XArg {
+                                    ty: attr(&a, "type").ok_or("arg without type")?,
+                                    dir: attr(&a, "direction"),
+                                });
+                            }
+                        }
+                        Ok(v)
+                    };
+                    let dup = match tag.as_str() {
+                        "method" => xi.methods.insert(name.clone(), args()?).is_some(),
+                        "signal" => xi.signals.insert(name.clone(), args()?).is_some(),
+                        "property" => xi
+                            .props
+                            .insert(
+                                name.clone(),
+                                (
+                                    attr(&m, "type").ok_or("property without type")?,
+                                    attr(&m, "access").ok_or("property without access")?,
+                                ),
+                            )
+                            .is_some(),
+                        "annotation" => false,
+                        o => return Err(format!("unexpected element <{o}> in interface")),
+                    };
+                    if dup {
+                        xi.duplicates.push(name);
+                    }
+                }
+                let nm = xi.name.clone();
+                if n.ifaces.insert(nm.clone(), xi).is_some() {
+                    n.duplicates.push(nm);
+                }
+            }
+            o => return Err(format!("unexpected element <{o}> in node")),
+        }
+    }
+    Ok(n)
+}
+
+fn xnode_from_zbus(node: &zbus_xml::Node<'_>) -> XNode {
+    let mut n = XNode {
+        name: node.name().map(|s| s.to_string()),
+        ..Default::default()
+    };
+    let conv_args = |args: &[zbus_xml::Arg]| -> Vec<XArg> {
+        args.iter()
+            .map(|a| XArg {
+                ty: a.ty().to_string(),
+                dir: a.direction().map(|d| match d {
+                    zbus_xml::ArgDirection::In => "in".to_string(),
+                    zbus_xml::ArgDirection::Out => "out".to_string(),
+                }),
+            })
+            .collect()
+    };
+    for i in node.interfaces() {
+        let mut xi = XIface {
+            name: i.name().to_string(),
+            ..Default::default()
+        };
+        for m in i.methods() {
+            if xi.methods.insert(m.name().to_string(), conv_args(m.args())).is_some() {
+                xi.duplicates.push(m.name().to_string());
+            }
+        }
+        for s in i.signals() {
+            if xi.signals.insert(s.name().to_string(), conv_args(s.args())).is_some() {
+                xi.duplicates.push(s.name().to_string());
+            }
+        }
+        for p in i.properties() {
+            let acc = match (p.access().read(), p.access().write()) {
+                (true, true) => "readwrite",
+                (true, false) => "read",
+                _ => "write",
+            };
+            if xi
+                .props
+                .insert(p.name().to_string(), (p.ty().to_string(), acc.to_string()))
+                .is_some()
+            {
+                xi.duplicates.push(p.name().to_string());
+            }
+        }
+        let nm = xi.name.clone();
+        if n.ifaces.insert(nm.clone(), xi).is_some() {
+            n.duplicates.push(nm);
+        }
+    }
+    for c in node.nodes() {
+        n.children.push(xnode_from_zbus(c));
+    }
+    n
+}
+
+/// zvariant prints a struct signature with parentheses; normalise nothing else.
+fn sorted_children(n: &XNode) -> XNode {
+    let mut n = n.clone();
+    n.children = n.children.iter().map(sorted_children).collect();
+    n.children.sort_by(|a, b| a.name.cmp(&b.name));
+    n
+}
+
+// ---------------------------------------------------------------------------------------------
+
+struct Doc {
+    cfg_idx: usize,
+    path: String,
+    xml: Result<String, String>,
+}
+
+const DASH_DOC: &str = "A dash pair -- inside the text.";
+const DASH_DOC_NEUTRAL: &str = "A dash pair - - inside the text.";
+const ARROW_DOC: &str = "An arrow --> inside the text.";
+const ARROW_DOC_NEUTRAL: &str = "An arrow - -> inside the text.";
+
+fn neutralise(xml: &str) -> String {
+    xml.replace(DASH_DOC, DASH_DOC_NEUTRAL).replace(ARROW_DOC, ARROW_DOC_NEUTRAL)
+}
+
+fn ifaces_at(cfg: &Config, path: &str) -> BTreeSet<usize> {
+    cfg.iter().filter(|(p, _)| p == path).map(|(_, i)| *i).collect()
+}
+
+fn children_of(cfg: &Config, path: &str) -> BTreeSet<String> {
+    let regs: Vec<&str> = cfg.iter().map(|(p, _)| p.as_str()).collect();
+    let prefix = if path == "/" { "/".to_string() } else { format!("{path}/") };
+    tree_paths(&regs)
+        .into_iter()
+        .filter(|p| p != "/" && p.starts_with(&prefix) && !p[prefix.len()..].contains('/') && p.len() > prefix.len())
+        .map(|p| p[prefix.len()..].to_string())
+        .collect()
+}
+
+fn expected_iface(j: usize) -> XIface {
+    let mut xi = XIface {
+        name: IFACES[j].name.to_string(),
+        ..Default::default()
+    };
+    for m in METHODS.iter().filter(|m| m.iface == j) {
+        let mut a: Vec<XArg> = m
+            .ins
+            .iter()
+            .map(|t| XArg {
+                ty: t.to_string(),
+                dir: Some("in".into()),
+            })
+            .collect();
+        let outs: Vec<String> = match m.out {
+            Out::Rec => vec![m.out_sig.to_string()],
+            _ => split_sig(m.out_sig).unwrap(),
+        };
+        a.extend(outs.into_iter().map(|t| XArg {
+            ty: t,
+            dir: Some("out".into()),
+        }));
+        xi.methods.insert(m.member.to_string(), a);
+    }
+    for s in SIGNALS.iter().filter(|s| s.iface == j) {
+        xi.signals.insert(
+            s.member.to_string(),
+            s.ins
+                .iter()
+                .map(|t| XArg {
+                    ty: t.to_string(),
+                    dir: None,
+                })
+                .collect(),
+        );
+    }
+    for p in PROPS.iter().filter(|p| p.iface == j) {
+        xi.props.insert(
+            p.name.to_string(),
+            (
+                p.sig.to_string(),
+                if p.writable { "readwrite" } else { "read" }.to_string(),
+            ),
+        );
+    }
+    xi
+}
+
+fn doc_kinds_of(ifaces: &BTreeSet<usize>) -> BTreeSet<u8> {
+    let mut k = BTreeSet::new();
+    for j in ifaces {
+        k.extend(METHODS.iter().filter(|m| m.iface == *j).map(|m| m.doc));
+        k.extend(PROPS.iter().filter(|m| m.iface == *j).map(|m| m.doc));
+        k.extend(SIGNALS.iter().filter(|m| m.iface == *j).map(|m| m.doc));
+    }
+    k
+}
+
+/// Interfaces whose text appears in the document for `path` (the node and its whole subtree).
+fn ifaces_in_subtree(cfg: &Config, path: &str) -> BTreeSet<usize> {
+    let prefix = if path == "/" { "/".to_string() } else { format!("{path}/") };
+    cfg.iter()
+        .filter(|(p, _)| p == path || p.starts_with(&prefix))
+        .map(|(_, i)| *i)
+        .collect()
+}
+
+pub fn main(args: &Args) -> i32 {
+    if let Some(p) = &args.replay {
+        return replay(p);
+    }
+    let report = Report::new("C27", args.tier, args.seed, "exploration");
+    let cfgs = configs(args.tier);
+
+    // Phase A: introspect every node of every configuration.
+    let docs: std::sync::Mutex<Vec<Doc>> = Default::default();
+    par_for(cfgs.len(), 1, |ci| {
+        let (_, cfg) = &cfgs[ci];
+        let mut b = build_world(cfg);
+        let regs: Vec<&str> = cfg.iter().map(|(p, _)| p.as_str()).collect();
+        let mut local = vec![];
+        for path in tree_paths(&regs) {
+            let xml = introspect(&mut b, &path);
+            local.push(Doc { cfg_idx: ci, path, xml });
+        }
+        docs.lock().unwrap().extend(local);
+    });
+    let timing = std::env::var_os("VERIF_TIMING").is_some();
+    if timing {
+        eprintln!("C27 phase A done at {:.1}s", report.elapsed_s());
+    }
+    let mut docs = docs.into_inner().unwrap();
+    docs.sort_by(|a, b| (a.cfg_idx, &a.path).cmp(&(b.cfg_idx, &b.path)));
+
+    // Phase B: independent parse of every distinct text (original and neutralised).
+    let mut texts: BTreeSet<String> = BTreeSet::new();
+    for d in &docs {
+        if let Ok(x) = &d.xml {
+            texts.insert(x.clone());
+            texts.insert(neutralise(x));
+        }
+    }
+    let texts: Vec<String> = texts.into_iter().collect();
+    let parsed = python_parse(&texts);
+    if timing {
+        eprintln!("C27 phase B done at {:.1}s", report.elapsed_s());
+    }
+    let py: BTreeMap<&str, &J> = texts.iter().map(|t| t.as_str()).zip(parsed.iter()).collect();
+
+    // Phase C: static clauses.
+    let mut usable_layout_docs: Vec<(String, XNode)> = vec![];
+    for d in &docs {
+        let (kind, cfg) = &cfgs[d.cfg_idx];
+        report.eval(1);
+        let registered = ifaces_at(cfg, &d.path);
+        let inside = ifaces_in_subtree(cfg, &d.path);
+        let kinds = doc_kinds_of(&inside);
+        let replay = json!({"config": cfg.iter().map(|(p, i)| json!([p, i])).collect::<Vec<_>>(), "path": d.path});
+        let ctx = format!("[{} | {}] introspecting {}", kind, cfg_name(cfg), d.path);
+        let base_feats = |v: Violation| {
+            v.feat("has_doc_double_dash", kinds.contains(&5))
+                .feat("has_doc_arrow", kinds.contains(&6))
+        };
+        report.nontrivial(hash64(&(cfg, &d.path)));
+        let xml = match &d.xml {
+            Ok(x) => x,
+            Err(e) => {
+                report.outcome("introspect-failed");
+                report.violation(base_feats(Violation::new(
+                    "introspect-answers",
+                    format!("{ctx}: {e}"),
+                    replay.clone(),
+                )));
+                continue;
+            }
+        };
+        let orig = py[xml.as_str()];
+        let neutral_text = neutralise(xml);
+        let neutral = py[neutral_text.as_str()];
+        let orig_ok = orig["ok"] == true;
+        let mut effective = orig;
+        let mut effective_text: &str = xml;
+        if !orig_ok {
+            let fixed_by_neutral = neutral["ok"] == true;
+            report.outcome(if fixed_by_neutral {
+                "ill-formed(doc comment with --)"
+            } else {
+                "ill-formed(other)"
+            });
+            report.violation(
+                base_feats(Violation::new(
+                    "well-formed",
+                    format!(
+                        "{ctx}: expat rejects the document: {}; with the `--` of the doc comments neutralised it is {}",
+                        orig["err"],
+                        if fixed_by_neutral { "well-formed" } else { "still ill-formed" }
+                    ),
+                    replay.clone(),
+                ))
+                .feat("wellformed_when_doc_dashes_neutralised", fixed_by_neutral),
+            );
+            if !fixed_by_neutral {
+                continue;
+            }
+            effective = neutral;
+            effective_text = &neutral_text;
+        }
+        // stray text (e.g. a comment closed early by `-->`) is not an ill-formedness; it is
+        // recorded and shows up below if it changes what the parsers see
+        let stray = effective["stray"].as_array().map(|a| a.len()).unwrap_or(0);
+        if stray > 0 {
+            report.outcome("well-formed-with-stray-text");
+        }
+        // read back by zbus_xml (on the text that is well-formed)
+        let zres = catch(|| zbus_xml::Node::from_reader(effective_text.as_bytes()));
+        let pnode = match xnode_from_py(&effective["root"]) {
+            Ok(n) => n,
+            Err(e) => {
+                report.outcome("unexpected-structure");
+                report.violation(base_feats(Violation::new(
+                    "declared-members",
+                    format!("{ctx}: document structure: {e}"),
+                    replay.clone(),
+                )));
+                continue;
+            }
+        };
+        match zres {
+            Ok(Ok(z)) => {
+                let zn = xnode_from_zbus(&z);
+                if sorted_children(&zn) != sorted_children(&pnode) {
+                    report.outcome("parsers-disagree");
+                    report.violation(
+                        base_feats(Violation::new(
+                            "read-back-by-zbus-xml",
+                            format!("{ctx}: zbus_xml reads a different structure than expat"),
+                            replay.clone(),
+                        ))
+                        .feat("how", "different-structure"),
+                    );
+                } else if orig_ok {
+                    report.outcome(if stray > 0 { "ok-with-stray-text" } else { "well-formed+read-back" });
+                }
+            }
+            other => {
+                let e = match other {
+                    Ok(Err(e)) => e.to_string(),
+                    Err(p) => format!("panic: {p}"),
+                    _ => unreachable!(),
+                };
+                report.outcome("zbus_xml-rejects");
+                report.violation(
+                    base_feats(Violation::new(
+                        "read-back-by-zbus-xml",
+                        format!("{ctx}: zbus_xml::Node::from_reader fails on a well-formed document: {e}"),
+                        replay.clone(),
+                    ))
+                    .feat("how", "rejected")
+                    .feat("stray_text", stray > 0),
+                );
+            }
+        }
+        // exactly the object's interfaces and child nodes
+        let want_ifaces: BTreeSet<String> = registered
+            .iter()
+            .map(|j| IFACES[*j].name.to_string())
+            .chain(STANDARD_IFACES.iter().map(|s| s.to_string()))
+            .collect();
+        let got_ifaces: BTreeSet<String> = pnode.ifaces.keys().cloned().collect();
+        if want_ifaces != got_ifaces || !pnode.duplicates.is_empty() {
+            report.violation(base_feats(Violation::new(
+                "interfaces-exact",
+                format!(
+                    "{ctx}: lists interfaces {got_ifaces:?} (duplicates {:?}), registered {want_ifaces:?}",
+                    pnode.duplicates
+                ),
+                replay.clone(),
+            )));
+        }
+        let want_children = children_of(cfg, &d.path);
+        let got_children: Vec<String> = pnode.children.iter().map(|c| c.name.clone().unwrap_or_default()).collect();
+        let got_set: BTreeSet<String> = got_children.iter().cloned().collect();
+        if got_set != want_children || got_set.len() != got_children.len() {
+            report.violation(base_feats(Violation::new(
+                "children-exact",
+                format!("{ctx}: lists child nodes {got_children:?}, tree has {want_children:?}"),
+                replay.clone(),
+            )));
+        }
+        // declared members and types == bank definitions
+        for j in &registered {
+            let want = expected_iface(*j);
+            let Some(got) = pnode.ifaces.get(IFACES[*j].name) else { continue };
+            report.eval((want.methods.len() + want.signals.len() + want.props.len()) as u64);
+            let names = |m: &BTreeMap<String, Vec<XArg>>| m.keys().cloned().collect::<BTreeSet<_>>();
+            if names(&want.methods) != names(&got.methods)
+                || names(&want.signals) != names(&got.signals)
+                || want.props.keys().collect::<Vec<_>>() != got.props.keys().collect::<Vec<_>>()
+                || !got.duplicates.is_empty()
+            {
+                report.violation(base_feats(Violation::new(
+                    "declared-members",
+                    format!(
+                        "{ctx}: {} declares methods {:?} signals {:?} properties {:?} duplicates {:?}; defined: {:?} {:?} {:?}",
+                        want.name,
+                        names(&got.methods),
+                        names(&got.signals),
+                        got.props.keys().collect::<Vec<_>>(),
+                        got.duplicates,
+                        names(&want.methods),
+                        names(&want.signals),
+                        want.props.keys().collect::<Vec<_>>()
+                    ),
+                    replay.clone(),
+                )));
+            }
+            for (name, wargs) in &want.methods {
+                let Some(gargs) = got.methods.get(name) else { continue };
+                let md = METHODS.iter().find(|m| m.iface == *j && m.member == name).unwrap();
+                let ins = |a: &Vec<XArg>| a.iter().filter(|x| x.dir.as_deref() != Some("out")).cloned().collect::<Vec<_>>();
+                let outs = |a: &Vec<XArg>| a.iter().filter(|x| x.dir.as_deref() == Some("out")).cloned().collect::<Vec<_>>();
+                if ins(gargs) != ins(wargs) {
+                    report.violation(
+                        base_feats(Violation::new(
+                            "declared-types",
+                            format!("{ctx}: {}.{name} declares inputs {:?}, defined {:?}", want.name, ins(gargs), ins(wargs)),
+                            replay.clone(),
+                        ))
+                        .feat("member", "method-in"),
+                    );
+                }
+                if md.out == Out::Rec {
+                    report.outcome("out-types: skipped (method returns one struct)");
+                } else if outs(gargs) != outs(wargs) {
+                    report.violation(
+                        base_feats(Violation::new(
+                            "declared-types",
+                            format!("{ctx}: {}.{name} declares outputs {:?}, defined {:?}", want.name, outs(gargs), outs(wargs)),
+                            replay.clone(),
+                        ))
+                        .feat("member", "method-out"),
+                    );
+                } else {
+                    report.outcome("out-types: compared");
+                }
+            }
+            for (name, wargs) in &want.signals {
+                let Some(gargs) = got.signals.get(name) else { continue };
+                let tys = |a: &Vec<XArg>| a.iter().map(|x| x.ty.clone()).collect::<Vec<_>>();
+                if tys(gargs) != tys(wargs) || gargs.iter().any(|a| a.dir.as_deref() == Some("in")) {
+                    report.violation(
+                        base_feats(Violation::new(
+                            "declared-types",
+                            format!("{ctx}: signal {}.{name} declares {:?}, defined {:?}", want.name, gargs, tys(wargs)),
+                            replay.clone(),
+                        ))
+                        .feat("member", "signal"),
+                    );
+                }
+            }
+            for (name, w) in &want.props {
+                let Some(g) = got.props.get(name) else { continue };
+                if g != w {
+                    report.violation(
+                        base_feats(Violation::new(
+                            "declared-types",
+                            format!("{ctx}: property {}.{name} declares {:?}, defined {:?}", want.name, g, w),
+                            replay.clone(),
+                        ))
+                        .feat("member", "property"),
+                    );
+                }
+            }
+        }
+        if d.cfg_idx == 0 && !registered.is_empty() {
+            usable_layout_docs.push((d.path.clone(), pnode.clone()));
+        }
+        if report.n_samples() < 6 && (d.cfg_idx % 29 == 0) {
+            report.sample(json!({
+                "config": cfg_name(cfg), "path": d.path, "xml_bytes": xml.len(),
+                "expat_ok": orig_ok, "comments": effective["comments"], "stray_text": effective["stray"],
+                "interfaces": got_ifaces, "children": got_children,
+            }));
+        }
+    }
+
+    if timing {
+        eprintln!("C27 phase C done at {:.1}s", report.elapsed_s());
+    }
+    // Phase D: drive the server from the XML of the standard layout.
+    let probes: std::sync::Mutex<u64> = Default::default();
+    par_for(usable_layout_docs.len(), 1, |k| {
+        let (path, node) = &usable_layout_docs[k];
+        let n = wire_probe(&report, path, node);
+        *probes.lock().unwrap() += n;
+    });
+
+    report.set("programs", json!(cfgs.len()));
+    report.set("bank_definitions", json!(METHODS.len() + PROPS.len() + SIGNALS.len()));
+    report.set("documents", json!(docs.len()));
+    report.set("distinct_documents", json!(texts.len() / 2));
+    report.set("wire_probes", json!(*probes.lock().unwrap()));
+    report.assume("python3's expat is the judge of well-formedness; quick-xml/zbus_xml is only the subject of the read-back clause");
+    report.assume("declared output types are compared only for methods that do not return a single struct (the property's own exemption)");
+    report.assume("only the top-level <node> of a document is compared with the registry (zbus also inlines the subtree; nested nodes are compared between the two parsers only)");
+    report.finish(
+        "registration sets (see module doc) x every node of the tree; per document the static clauses, per declared member one type comparison, and for the standard layout one wire probe per declared method/signal/property; non-trivial = distinct (configuration, path)",
+        true,
+    )
+}
+
+/// Drive methods/signals/properties of the bank interfaces at `path` from the parsed XML.
+fn wire_probe(report: &Report, path: &str, node: &XNode) -> u64 {
+    let mut b = BankWorld::new();
+    let mut n = 0;
+    let val_of = |t: &str| -> Option<Val> {
+        catch(|| domain(t)).ok().and_then(|d| d.get(1).cloned())
+    };
+    for (iname, xi) in &node.ifaces {
+        let Some(d) = IFACES.iter().find(|d| d.name == iname) else { continue };
+        let replay = json!({"config": layout_config().iter().map(|(p, i)| json!([p, i])).collect::<Vec<_>>(), "path": path, "probe": iname});
+        for (mname, xargs) in &xi.methods {
+            n += 1;
+            report.eval(1);
+            let ins: Vec<&XArg> = xargs.iter().filter(|a| a.dir.as_deref() != Some("out")).collect();
+            let outs: String = xargs.iter().filter(|a| a.dir.as_deref() == Some("out")).map(|a| a.ty.clone()).collect();
+            let vals: Option<Vec<Val>> = ins.iter().map(|a| val_of(&a.ty)).collect();
+            let Some(vals) = vals else {
+                report.violation(
+                    Violation::new("wire-agrees", format!("{iname}.{mname} at {path}: declared input types {ins:?} are outside the bank's types"), replay.clone())
+                        .feat("member", "method-in"),
+                );
+                continue;
+            };
+            let serial = b.serial();
+            let c = CallSpec::new(serial, path, iname, mname, vals);
+            let o = run_call(&mut b, &c);
+            let md = METHODS.iter().find(|m| m.iface == d.idx && m.member == mname);
+            if o.log.len() != 1 {
+                report.outcome("probe: declared inputs refused");
+                report.violation(
+                    Violation::new(
+                        "wire-agrees",
+                        format!("{iname}.{mname} at {path}: a call with the declared input types {:?} ran {} handlers ({:?})", c.sig, o.log.len(), crate::c26::observed_class(&o)),
+                        replay.clone(),
+                    )
+                    .feat("member", "method-in"),
+                );
+                continue;
+            }
+            match o.replies.as_slice() {
+                [r] if r.mtype == T_RETURN => {
+                    if md.map(|m| m.out == Out::Rec).unwrap_or(false) {
+                        report.outcome("probe: method accepted, struct return not compared");
+                    } else if r.sig != outs {
+                        report.outcome("probe: reply signature differs");
+                        report.violation(
+                            Violation::new(
+                                "wire-agrees",
+                                format!("{iname}.{mname} at {path}: declares outputs {outs:?}, sends {:?}", r.sig),
+                                replay.clone(),
+                            )
+                            .feat("member", "method-out"),
+                        );
+                    } else {
+                        report.outcome("probe: method types agree");
+                    }
+                }
+                [_] => report.outcome("probe: method accepted, handler returned its error"),
+                o => {
+                    report.outcome("probe: reply count");
+                    report.violation(
+                        Violation::new("wire-agrees", format!("{iname}.{mname} at {path}: {} replies", o.len()), replay.clone())
+                            .feat("member", "method-out"),
+                    );
+                }
+            }
+        }
+        for (sname, xargs) in &xi.signals {
+            n += 1;
+            report.eval(1);
+            let Some(sd) = SIGNALS.iter().find(|s| s.iface == d.idx && s.member == sname) else { continue };
+            let declared: String = xargs.iter().map(|a| a.ty.clone()).collect();
+            let vals: Vec<Val> = sd.ins.iter().map(|t| domain(t)[1].clone()).collect();
+            for route in [0u8, 1] {
+                let off = b.link.b2a.written_len();
+                let (srv, p, v) = (b.server.clone(), path.to_string(), vals.clone());
+                let (ii, si) = (d.idx, sd.idx);
+                let r = b.w.complete("emit", async move { emit_signal(&srv, &p, ii, si, &v, route).await.map_err(|e| e.to_string()) });
+                let out = b.server_output_since(off);
+                let sigs: Vec<WireMsg> = parse_stream(&out)
+                    .unwrap_or_default()
+                    .into_iter()
+                    .filter(|m| m.mtype == T_SIGNAL && m.member.as_deref() == Some(sname.as_str()) && m.iface.as_deref() == Some(iname.as_str()))
+                    .collect();
+                match (r, sigs.as_slice()) {
+                    (Some(Ok(())), [m]) if m.sig == declared && m.path.as_deref() == Some(path) => {
+                        report.outcome("probe: signal types agree");
+                    }
+                    (r, s) => {
+                        report.outcome("probe: signal differs");
+                        report.violation(
+                            Violation::new(
+                                "wire-agrees",
+                                format!(
+                                    "signal {iname}.{sname} at {path} (route {route}): declares {declared:?}; emission gave {r:?} and {} signal messages with signatures {:?}",
+                                    s.len(),
+                                    s.iter().map(|m| m.sig.clone()).collect::<Vec<_>>()
+                                ),
+                                replay.clone(),
+                            )
+                            .feat("member", "signal"),
+                        );
+                    }
+                }
+            }
+        }
+        for (pname, (ty, access)) in &xi.props {
+            n += 1;
+            report.eval(1);
+            let serial = b.serial();
+            let c = CallSpec::new(
+                serial,
+                path,
+                "org.freedesktop.DBus.Properties",
+                "Get",
+                vec![Val::S(iname.clone()), Val::S(pname.clone())],
+            );
+            let o = run_call(&mut b, &c);
+            let got = match o.replies.as_slice() {
+                [r] if r.mtype == T_RETURN => match dec_body(&r.sig, &r.body) {
+                    Ok(v) => match v.as_slice() {
+                        [Val::V(inner)] => Ok(inner.sig()),
+                        o => Err(format!("Get returned {o:?}")),
+                    },
+                    Err(e) => Err(e),
+                },
+                o => Err(format!("{} replies / error {:?}", o.len(), o.first().and_then(|m| m.error_name.clone()))),
+            };
+            if got.as_deref() != Ok(ty.as_str()) {
+                report.outcome("probe: property type differs");
+                report.violation(
+                    Violation::new(
+                        "wire-agrees",
+                        format!("property {iname}.{pname} at {path}: declares {ty:?}, Get sends {got:?}"),
+                        replay.clone(),
+                    )
+                    .feat("member", "property"),
+                );
+                continue;
+            }
+            if access == "readwrite" || access == "write" {
+                let Some(v) = val_of(ty) else { continue };
+                let serial = b.serial();
+                let c = CallSpec::new(
+                    serial,
+                    path,
+                    "org.freedesktop.DBus.Properties",
+                    "Set",
+                    vec![Val::S(iname.clone()), Val::S(pname.clone()), Val::V(Box::new(v.clone()))],
+                );
+                let o = run_call(&mut b, &c);
+                let stored = PROPS
+                    .iter()
+                    .find(|p| p.iface == d.idx && p.name == pname)
+                    .map(|p| b.reg.state(path, d.idx).prop(p.name));
+                let ok = matches!(o.replies.as_slice(), [r] if r.mtype == T_RETURN) && stored.as_ref() == Some(&v);
+                if !ok {
+                    report.outcome("probe: property write refused");
+                    report.violation(
+                        Violation::new(
+                            "wire-agrees",
+                            format!(
+                                "property {iname}.{pname} at {path}: declared {access} of type {ty:?}, but Set with that type gave {:?} and the server holds {stored:?}",
+                                crate::c26::observed_class(&o)
+                            ),
+                            replay.clone(),
+                        )
+                        .feat("member", "property"),
+                    );
+                    continue;
+                }
+            }
+            report.outcome("probe: property types agree");
+        }
+    }
+    n
+}
+
+fn replay(path: &str) -> i32 {
+    let art = vcommon::load_replay(path);
+    let r = &art["replay"];
+    let cfg: Config = r["config"]
+        .as_array()
+        .map(|a| {
+            a.iter()
+                .map(|e| (e[0].as_str().unwrap_or("/").to_string(), e[1].as_u64().unwrap_or(0) as usize))
+                .collect()
+        })
+        .unwrap_or_default();
+    let p = r["path"].as_str().unwrap_or("/");
+    let mut b = build_world(&cfg);
+    println!("configuration: {}", cfg_name(&cfg));
+    match introspect(&mut b, p) {
+        Err(e) => {
+            println!("introspection of {p} failed: {e}");
+            1
+        }
+        Ok(xml) => {
+            println!("--- XML of {p} ({} bytes) ---\n{xml}\n--- end ---", xml.len());
+            let res = python_parse(&[xml.clone(), neutralise(&xml)]);
+            println!("expat: ok={} err={} stray={}", res[0]["ok"], res[0]["err"], res[0]["stray"]);
+            println!("expat on the text with `--` docs neutralised: ok={} err={}", res[1]["ok"], res[1]["err"]);
+            match catch(|| zbus_xml::Node::from_reader(xml.as_bytes()).map(|n| n.interfaces().len())) {
+                Ok(Ok(n)) => println!("zbus_xml: parsed, {n} top-level interfaces"),
+                Ok(Err(e)) => println!("zbus_xml: error {e}"),
+                Err(p) => println!("zbus_xml: panic {p}"),
+            }
+            if let Some(iname) = r["probe"].as_str() {
+                if res[1]["ok"] == true {
+                    if let Ok(node) = xnode_from_py(&res[1]["root"]) {
+                        let rep = Report::new("C27-replay", Tier::Quick, 0, "exploration");
+                        let mut only = node.clone();
+                        only.ifaces.retain(|k, _| k == iname);
+                        wire_probe(&rep, p, &only);
+                        println!("wire probe of {iname}: violations={}", rep.has_violations());
+                        return rep.has_violations() as i32;
+                    }
+                }
+            }
+            (res[0]["ok"] != true) as i32
+        }
+    }
 }
